@@ -74,12 +74,25 @@ func (p *published) tsBound(attach int, flat []flatNal) startBound {
 	if cd.Video == "" {
 		return startBound{videoItem: -1, maxAOff: p.audioFramesBefore(attach), why: fmt.Sprintf("without video every audio PES is a start point; attached before item %d", attach)}
 	}
+	// the first key frame of a stream always opens a start point — unless audio was remuxed before the video sequence
+	// header arrived (video track appearing late): then audio PES have opened the output already and the first key
+	// frame is an ordinary one
 	firstVid := -1
+	audioBeforeVsh, seenVsh := false, false
 	for i, it := range p.items {
+		if it.Kind == "vsh" {
+			seenVsh = true
+		}
+		if it.Kind == "audio" && !seenVsh {
+			audioBeforeVsh = true
+		}
 		if it.Kind == "video" {
 			firstVid = i
 			break
 		}
+	}
+	if audioBeforeVsh {
+		firstVid = -1
 	}
 	for k := attach; k < len(p.items); k++ {
 		it := p.items[k]
